@@ -13,7 +13,8 @@ rc=0
 for id in "$@"; do
   echo "== $id on $name"
   timeout 3600 bin/fv check "$id" --tier "${TIER:-quick}" > "/tmp/fvmut/$name.$id.out" 2>&1; r=$?
-  grep -E "^(VIOLATION|KNOWN-FINDING|OK|ERROR)" "/tmp/fvmut/$name.$id.out" | cut -c1-400 | head -12
+  echo "known-finding lines: $(grep -c '^KNOWN-FINDING' "/tmp/fvmut/$name.$id.out")"
+  grep -E "^(VIOLATION|OK|ERROR)" "/tmp/fvmut/$name.$id.out" | cut -c1-400 | head -12
   grep -A1 "^VIOLATION" "/tmp/fvmut/$name.$id.out" | grep "^  (" | cut -c1-300 | head -6
   echo "exit=$r"; [ $r -ne 0 ] && rc=1
   mkdir -p "/tmp/fvmut/keep_$name"; cp -r "$FV_SCRATCH/replays" "/tmp/fvmut/keep_$name/" 2>/dev/null
